@@ -312,7 +312,18 @@ def state_slot(e):
 
 
 def check_handler_protocol(chk, unit):
-    f = unit.functions.get("spifconf_parse_line")
+    """the handler call sites of spifconf_parse_line and of the unit-local helpers it hands the begin / end protocol to"""
+    from .listrules import unit_closure
+    root = unit.functions.get("spifconf_parse_line")
+    n = 0
+    for f in unit_closure(root):
+        if f.cfg is None or f.body is None:
+            continue
+        n += _handler_protocol_in(chk, unit, f)
+    return n
+
+
+def _handler_protocol_in(chk, unit, f):
     calls = handler_calls(f)
     n = 0
     cfg = nullness.prepared_cfg(f, NORETURN)
@@ -364,6 +375,19 @@ def check_handler_protocol(chk, unit):
                     # the guard is the truthiness of the depth (depth, depth != 0, depth > 0) on the arm that holds the call
                     facts_ = X.implied(anc["cond"], inthen)
                     if any(f_[0] in ("true", "ne") or (f_[0] == "cmp" and f_[1] in (">", ">=")) for f_ in facts_) or glob_ref(anc["cond"], "ctx_state_idx") is not None:
+                        guarded = True
+            if not guarded:
+                # early-exit form: `if (!depth) return ..;` in front of the call
+                for gi in walk(f.body):
+                    if gi.get("k") != "if" or gi.get("else") is not None or not any(glob_ref(y, "ctx_state_idx") is not None for y in walk(gi["cond"])):
+                        continue
+                    facts_ = X.implied(gi["cond"], True)
+                    zero_arm = any(f_[0] in ("false",) or (f_[0] == "eq" and len(f_) > 2 and f_[2] == 0) for f_ in facts_)
+                    th = gi["then"]
+                    last = th["ch"][-1] if th.get("k") == "block" and th.get("ch") else th
+                    leaves = last is not None and last.get("k") == "return"
+                    cn_ = X.strip(gi["cond"])
+                    if zero_arm and leaves and cn_ is not None and cfg.node_dominates(cn_["i"], c["i"]):
                         guarded = True
             chk.ob("P2", f.name, "end-before-pop", bool(pops), loc=f.loc(c),
                    detail="the end handler call is not followed by the pop of its context", proof="the end call dominates ctx_pop()")
@@ -872,6 +896,16 @@ def check_push_initialises(chk, prog, unit, rule="P6"):
                 for a in c["ch"][1:]:
                     for y in walk(a):
                         g_ = glob_ref(y)
+                        if g_ is not None and g_.get("tp") and g_["n"] not in (idx["n"], cnt["n"]):
+                            tab = g_
+        if tab is None:
+            # reallocated by a unit-local helper that is handed the table
+            for c in X.calls_in(f.body):
+                g2_ = unit.functions.get(X.callee_name(c) or "")
+                if g2_ is not None and g2_.body is not None and any(X.callee_name(c2) in ("realloc", "spifmem_realloc") for c2 in X.calls_in(g2_.body)):
+                    for a in c["ch"][1:]:
+                        sa = X.strip(a)
+                        g_ = glob_ref(sa) if sa is not None else None
                         if g_ is not None and g_.get("tp") and g_["n"] not in (idx["n"], cnt["n"]):
                             tab = g_
         if tab is None:
